@@ -25,6 +25,7 @@ type cmdDefaults struct {
 	deleteDelay              time.Duration
 	consistencyDelay         time.Duration
 	ignoreDeletionMarksDelay time.Duration
+	cleanupInterval          time.Duration // compact.cleanup-interval: period of the background partial-upload cleanup
 	// compactorIgnoreDelay computes the compactor's own ignore-deletion-mark delay from deleteDelay
 	// (cmd/thanos/compact.go passes deleteDelay/2).
 	compactorIgnoreNum, compactorIgnoreDen int64
@@ -85,6 +86,12 @@ func doExtract() (cmdDefaults, error) {
 	}
 	if d.ignoreDeletionMarksDelay, err = get(sf, "ignore-deletion-marks-delay"); err != nil {
 		return d, err
+	}
+	if d.cleanupInterval, err = get(cf, "compact.cleanup-interval"); err != nil {
+		return d, err
+	}
+	if d.cleanupInterval <= 0 {
+		return d, fmt.Errorf("compact.cleanup-interval defaults to %v: the background cleanup would be off", d.cleanupInterval)
 	}
 	// compactor: block.NewIgnoreDeletionMarkFilter(logger, insBkt, <expr>, conc)
 	expr := callArg(cf, "NewIgnoreDeletionMarkFilter", 2)
